@@ -13,9 +13,13 @@ pub fn scenario(seed: u64, campaign: &'static str, prop: &'static str, idx: u64)
     sc.request_size = pick_buffer(&mut rng);
     sc.yields = pick_yields(&mut rng);
     sc.tree = small_tree(rng.next());
-    if prop == "C10" && rng.chance(1, 2) {
+    if rng.chance(1, 2) {
+        super::real::add_realism(&mut rng, &mut sc.tree);
+    }
+    if (prop == "C10" && rng.chance(1, 2)) || (prop == "C04" && rng.chance(1, 4)) {
         sc.env = super::c09::cors_env(&mut rng);
     }
+    let configured: Vec<String> = sc.env.iter().find(|(k, _)| k == "RWS_CONFIG_CORS_ALLOW_ORIGINS").map(|(_, v)| v.split(',').filter(|x| !x.is_empty()).map(|x| x.to_string()).collect()).unwrap_or_default();
     let n = rng.range(1, 6);
     let targets = ["/file.txt", "/page.html", "/page", "/d/", "/d", "/big.bin", "/", "/missing.txt", "/empty.txt", "/one.txt"];
     let faults: Vec<&str> = match campaign {
@@ -27,10 +31,18 @@ pub fn scenario(seed: u64, campaign: &'static str, prop: &'static str, idx: u64)
     for i in 0..n {
         let target = targets[rng.below(targets.len())];
         let (class, bytes) = mutated_request(&mut rng, target, sc.request_size as usize);
-        let bytes = match rng.below(6) {
+        let bytes = match rng.below(7) {
             0 | 1 => decorate(&mut rng, &bytes),
             2 if prop != "C10" => decorate_odd(&mut rng, &bytes),
+            3 => super::real::decorate_real(&mut rng, &bytes, true),
             _ => bytes,
+        };
+        // an Origin made from a configured one: the same with something appended (a port, a colon, a path)
+        let (class, bytes) = if !configured.is_empty() && rng.chance(1, 5) {
+            let o = format!("{}{}", rng.pick(&configured), rng.pick(&[":", ":80", ":443", ":44x", ":99999999999999999999999", ":-1", "/", ".", ":0", ": ", "::", ":8080:1", "#", "?", "@evil.example"]));
+            ("origin_configured_plus_suffix", req(*rng.pick(&["GET", "OPTIONS", "HEAD", "POST"]), target, &[("Origin", &o), ("Access-Control-Request-Method", "GET")], b""))
+        } else {
+            (class, bytes)
         };
         let mut c = Conn::simple(i, if overlapped { 0 } else { i as u32 }, bytes, class);
         if c.request.0.is_empty() {
